@@ -54,21 +54,25 @@ def canonicalize_url(
     if strip_fragment:
         fragment = None
 
-    # Empty path etc.
-    if not path or path == "/":
-        if not query and not fragment:
-            path = ""
-        else:
-            path = "/"
+    # NOTE: the path is unquoted first so that quoted dot segments resolve too
+    path = safely_unquote_path(path)
 
     # Path normalization
-    else:
+    if path:
         # NOTE: normpath drops the trailing slash, which is significant
         trailing_slash = path.endswith(("/", "/.", "/.."))
         path = normpath(path)
 
         if trailing_slash and path:
             path += "/"
+
+    # Empty path etc.
+    # NOTE: decided after normalization, since dot segments can empty the path
+    if not path or path == "/":
+        if not query and not fragment:
+            path = ""
+        else:
+            path = "/"
 
     # Quotes
     if user:
@@ -85,8 +89,6 @@ def canonicalize_url(
 
     if quoted:
         path = safely_quote(path)
-    else:
-        path = safely_unquote_path(path)
 
     qsl = safe_qsl_iter(query)
 
